@@ -492,6 +492,43 @@ def two_searches_case(case):
     return preempt.check_pair(make, judge, case.get('k'))
 
 
+class SigSeedLogger(Core.Model):
+    """Model classes whose constructors expose optional arguments the grid does not name."""
+
+    def __init__(self, a, seed=None, logger=None):
+        super().__init__(seed=seed, logger=logger)
+        self.a = a
+        self.complete()
+
+
+class SigLogger(Core.Model):
+    def __init__(self, a, logger=None):
+        super().__init__(seed=1, logger=logger)
+        self.a = a
+        self.complete()
+
+
+class SigKwOnly(Core.Model):
+    def __init__(self, a, *, logger=None, seed=3, verbose=False, processes=None, score=None):
+        super().__init__(seed=seed, logger=logger)
+        self.a = a
+        self.complete()
+
+
+class SigKwargs(Core.Model):
+    def __init__(self, a, **kwargs):
+        super().__init__(seed=1)
+        self.a, self.extra = a, dict(kwargs)
+        self.complete()
+
+
+SIG_MODELS = {'seed_logger': SigSeedLogger, 'logger': SigLogger, 'kwonly': SigKwOnly, 'kwargs': SigKwargs}
+
+
+def sig_score(model):
+    return 10 * model.a + len(getattr(model, 'extra', ()))
+
+
 def traits_case(case):
     reset_library()
     procs, oc = case['procs'], case.get('outcome')
@@ -505,6 +542,13 @@ def traits_case(case):
                                                  mode=ScoreMode.MIN_SUM)
             cs = [{'a': a} for a in (3, 1, 2)]
             exp = [100 * c['a'] + 8 for c in cs]
+        elif case['what'] == 'signature':
+            params = {'a': [2, 1, 3], 'b': 5} if case['sig'] == 'kwargs' else {'a': [2, 1, 3]}
+            reps = 2
+            best, results = Batching.grid_search(SIG_MODELS[case['sig']], params, sig_score, processes=procs,
+                                                 repetitions=reps, mode=ScoreMode.MIN_SUM)
+            cs = [dict({'a': a}, **({'b': 5} if case['sig'] == 'kwargs' else {})) for a in (2, 1, 3)]
+            exp = [10 * c['a'] + (1 if case['sig'] == 'kwargs' else 0) for c in cs]
         elif case['what'] == 'name':
             n = case['name']
             params = {n: [3, 1, 2], 'a': [10, 20]}
@@ -550,6 +594,10 @@ def traits_cases():
         yield {'leg': 'traits', 'what': 'name', 'name': n, 'procs': 1}
         for oc in ocs:
             yield {'leg': 'traits', 'what': 'name', 'name': n, 'procs': 2, 'outcome': oc}
+    for sig in SIG_MODELS:
+        yield {'leg': 'traits', 'what': 'signature', 'sig': sig, 'procs': 1}
+        for oc in sched.outcomes(3, 2):
+            yield {'leg': 'traits', 'what': 'signature', 'sig': sig, 'procs': 2, 'outcome': [list(map(list, oc[0])), list(oc[1])]}
     yield {'leg': 'traits', 'what': 'nested', 'procs': 1}
     for oc in sched.outcomes(3, 2):
         yield {'leg': 'traits', 'what': 'nested', 'procs': 2, 'outcome': [list(map(list, oc[0])), list(oc[1])]}
